@@ -10,7 +10,7 @@ From TS Require Proofs.C10Lex Proofs.C10_TS Proofs.C10_TSFile Proofs.C10_KT Proo
 From TS Require Import Spec.C10TsGrammar.
 From TS Require Proofs.C10_TSGrammarTok Proofs.C10_TSGrammarParse Proofs.C10_TSGrammar Proofs.C10_TSGrammarFile.
 From TS Require Import Spec.C10KtGrammar.
-From TS Require Proofs.C10_KTGrammarTok Proofs.C10_KTGrammarParse Proofs.C10_KTGrammar Proofs.C10_KTGrammarFile.
+From TS Require Proofs.C10_KTGrammarTok Proofs.C10_KTGrammarParse Proofs.C10_KTGrammar Proofs.C10_KTGrammarFile Proofs.C10_KTGrammarMulti.
 From TS Require Import Model.MultiFile Spec.C10MultiSpec.
 From TS Require Model.Writer Proofs.C10Multi Proofs.C10MultiWitness.
 
@@ -616,3 +616,37 @@ Theorem C10_grammar_kotlin_witness :
   c10_kt_recognise (lit "@SerialName(""a) object A" ++ nl) = None.
 Proof. exact Proofs.C10_KTGrammarFile.kt_grammar_witness. Qed.
 Print Assumptions C10_grammar_kotlin_witness.
+
+(* Kotlin, MULTI-FILE (folder output) mode, one crate's file (kt_generate_multi: `package <package>.<crate>`, the fixed
+   imports, one `import <package>.<crate>.<Type>` per imported type, every declaration): under the hypotheses of
+   C10_grammar_kotlin, a package that is not empty (the real CLI demands one for Kotlin; without it the import lines would
+   start with a dot), a crate name that is an identifier (c10_crate_ok of the lexical theorem also admits a leading digit
+   - a Cargo package `3d-tools` gives `package p.3d_tools`, which is not a package header - and dashes, which
+   find_crate_name replaces: both excluded) and an import map of identifier-shaped crate and type names, the recogniser
+   accepts the file and finds at least one top-level declaration per item. *)
+Theorem C10_grammar_kotlin_multi :
+  forall (uc : unicode) (cfg : kt_config) (c : str) (im : scoped) (pd : parsed) (text : str),
+    Proofs.C10_KT.c10_kt_cfg_ok cfg = true -> Proofs.C10_KTGrammarFile.c10_ktg_cfg_ok cfg -> kt_package cfg <> [] ->
+    dom_C10 CKT pd = true -> Proofs.C10_KTGrammarFile.c10_ktg_dom pd ->
+    Proofs.C10_KTGrammarTok.c10k_ident_ok c = true -> Proofs.C10_KTGrammarMulti.c10_ktg_imports_ok im ->
+    kt_generate_multi uc cfg c im pd = Ok text ->
+    exists n : nat, c10_kt_recognise text = Some n /\ (List.length (items_of pd) <= n)%nat.
+Proof. exact Proofs.C10_KTGrammarMulti.kt_generate_multi_recognised. Qed.
+Print Assumptions C10_grammar_kotlin_multi.
+
+(* its hypotheses are satisfiable: the witness program above as the crate app_core importing two types of lib_crate is
+   accepted as 7 declarations with its package and import lines; a package segment that starts with a digit and an import
+   of a crate named with a dash are rejected *)
+Theorem C10_grammar_kotlin_multi_witness :
+  Proofs.C10_KTGrammarTok.c10k_ident_ok (lit "app_core") = true /\
+  Proofs.C10_KTGrammarMulti.c10_ktg_imports_ok Proofs.C10_KTGrammarMulti.kgm_imports /\
+  kt_package Proofs.C10_KTGrammarFile.kg_cfg <> [] /\
+  kt_generate_multi uc_exec Proofs.C10_KTGrammarFile.kg_cfg (lit "app_core") Proofs.C10_KTGrammarMulti.kgm_imports Proofs.C10_KTGrammarFile.kg_prog
+    = Ok Proofs.C10_KTGrammarMulti.kgm_text /\
+  c10_kt_recognise Proofs.C10_KTGrammarMulti.kgm_text = Some 7%nat /\
+  contains_sub (lit "package com.agilebits.onepassword.app_core") Proofs.C10_KTGrammarMulti.kgm_text = true /\
+  contains_sub (lit "import com.agilebits.onepassword.lib_crate.Node") Proofs.C10_KTGrammarMulti.kgm_text = true /\
+  c10_kt_recognise (lit "package com.p.3d_tools" ++ nl) = None /\
+  c10_kt_recognise (lit "package com.p.lib" ++ nl ++ lit "import com.p.lib-crate.Item" ++ nl) = None.
+Proof. exact Proofs.C10_KTGrammarMulti.C10_kt_grammar_multi_nonvacuous. Qed.
+Print Assumptions C10_grammar_kotlin_multi_witness.
